@@ -22,3 +22,10 @@ def c02_nonhierarchical_base(what, case):
     base = sch.get("$id", sch.get("id", "")) if isinstance(sch, dict) else ""
     return (what == "unresolved" and isinstance(base, str) and base.split(":", 1)[0] in ("urn", "tag")
             and str(case.get("observed", "")).startswith("RefResolutionError"))
+
+
+def c17_property_name_instance(what, case):
+    """F12: a propertyNames error (whose recorded instance is a property NAME) is filed at an object's node, the node
+    then takes that string for the instance, and indexing an error-free member of the object raises TypeError"""
+    return (what == "index_error_free_element" and case.get("has_property_name_error") is True
+            and all(p.get("out") == "TypeError" for p in case.get("index_probes", [])))
